@@ -53,6 +53,7 @@ type loopTransport struct {
 	srv       ienvelope.Server
 	requests  [][]byte
 	replies   [][]byte
+	handed    [][]byte // the replies as Handle handed them out (not copied)
 	clobbered bool // Handle changed the bytes of a request it was given
 }
 
@@ -64,6 +65,7 @@ func (t *loopTransport) Send(b []byte) ([]byte, error) {
 	}
 	if err == nil {
 		t.replies = append(t.replies, append([]byte{}, out...))
+		t.handed = append(t.handed, out)
 	}
 	return out, err
 }
@@ -77,13 +79,21 @@ func c12EnvServer(res *world.Result, logf func(string, ...interface{}), h *world
 	svcNames := []string{"Svc", "Other", "svc_2"}
 	handlers := map[string]*recHandler{}
 	ns := 1 + ch("env.services", 3)
+	// the multiplexer may be handed to the server before any service is registered with it
+	var srv ienvelope.Server
+	lateReg := simrt.Flip("env.register-after-server", 0.3)
+	if lateReg {
+		srv = ienvelope.NewServer(binary.Default, mux)
+	}
 	for i := 0; i < ns; i++ {
 		hd := &recHandler{service: svcNames[i], mode: ch("env.handler-mode", 3), reply: genVal(ref.TStruct, 0, genOpts{maxDepth: 2}), errorMsg: fmt.Sprintf("boom-%d", ch("env.err", 100))}
 		hd.echo = simrt.Flip("env.handler-echo", 0.3)
 		handlers[svcNames[i]] = hd
 		mux.Put(svcNames[i], hd)
 	}
-	srv := ienvelope.NewServer(binary.Default, mux)
+	if !lateReg {
+		srv = ienvelope.NewServer(binary.Default, mux)
+	}
 	// --- through the client
 	target := svcNames[ch("env.target", len(svcNames))]
 	method := []string{"get", "a:b", "x:y:z", "", "M\xffq", target + ":get", target + ":" + target + ":x", ":" + target}[ch("env.method", 8)]
@@ -193,6 +203,13 @@ func c12EnvServer(res *world.Result, logf func(string, ...interface{}), h *world
 	if herr != nil {
 		res.Failf("C12/env-server", "Handle failed on a valid %s: %v", raw, herr)
 		return
+	}
+	// an answer stays what it was while later requests are handled (answers collected first and
+	// written out afterwards)
+	for i := range tr.handed {
+		if !bytes.Equal(tr.handed[i], tr.replies[i]) {
+			res.Failf("C12/env-server", "the bytes of an earlier answer changed when a later request was handled")
+		}
 	}
 	rep, n, derr := ref.DecodeEnvelope(out)
 	if derr != nil || n != len(out) {
